@@ -219,12 +219,14 @@ directive @transform(op: String!) repeatable on FIELD
         let Some(query_type_name) = schema.query.as_ref().map(|name| name.node.as_ref()) else {
             return Err(InvalidSchemaError::MissingQueryType);
         };
-        let query_type_definition = vertex_types
-            .get(query_type_name)
-            .expect("The query type set in the schema object was never defined.");
+        let Some(query_type_definition) = vertex_types.get(query_type_name) else {
+            return Err(InvalidSchemaError::UndefinedQueryType(query_type_name.to_string()));
+        };
         let query_type = match &query_type_definition.kind {
             TypeKind::Object(o) => o.clone(),
-            _ => unreachable!(),
+            _ => {
+                return Err(InvalidSchemaError::QueryTypeNotAnObject(query_type_name.to_string()));
+            }
         };
 
         let mut errors = vec![];
